@@ -6,7 +6,7 @@ From Coq Require Import List NArith ZArith QArith Qround Qabs Bool Lia.
 From Common Require Import Outcome.
 From Gen Require Import C12B.
 From C12 Require Import Codec Util Model Model2 Model3 Proofs_hmtx Proofs_derived.
-From C12B Require Import Model Spec Proofs_box Proofs_pdf Proofs_font Proofs_refuted.
+From C12B Require Import Model Spec Proofs_box Proofs_pdf Proofs_font Proofs_refuted Proofs_cfont.
 Import ListNotations.
 
 Local Open Scope Q_scope.
@@ -179,3 +179,33 @@ Proof. split; reflexivity. Qed.
 Example ex_near :
   Qnear (1 # 3) (3333333333 # 10000000000) (1 # 3) = true /\ Qnear (1 # 3) (333333 # 1000000) (1 # 3) = false.
 Proof. split; vm_compute; reflexivity. Qed.
+
+(* (7) cff.Font / cff.Outlines *)
+Example ex_cfont_widths_pdf :
+  exists l, M_cfont_widths_pdf ex_cid = Ok l /\ Forall2 Qeq l [250; 600; 300; 0].
+Proof. eexists. split; [vm_compute; reflexivity|]. repeat constructor; vm_compute; reflexivity. Qed.
+Example ex_cfont_bbox : M_outlines_bbox ex_cid = Ok (mkRect (-20) (-11) 500 701).
+Proof. vm_compute. reflexivity. Qed.
+Example ex_cfont_font_bbox_pdf : M_cfont_font_bbox_pdf ex_cid = M_cff_font_bbox_pdf ex_cid.
+Proof. vm_compute. reflexivity. Qed.
+Example ex_builtin :
+  let enc := [0; 2; 9; 1]%nat ++ repeat 3%nat 252 in
+  length enc = 256%nat /\
+  option_map (firstn 5) (M_builtin_encoding enc (cf_glyphs ex_simple)) = Some [0; 2; 0; 1; 3]%N /\
+  M_builtin_encoding [1; 2]%nat (cf_glyphs ex_simple) = None /\ M_builtin_encoding [] (cf_glyphs ex_simple) = None.
+Proof. repeat split; vm_compute; reflexivity. Qed.
+
+(* Clone: struct 0 = FontInfo (a scalar, the FontMatrix array), struct 1 =
+   Outlines (Glyphs and Encoding as references to objects 0 and 1) *)
+Definition ex_store : store :=
+  mkStore [[FScalar 7; FArray [1; 0; 0; 1; 0; 0]%Z]; [FRef 0; FRef 1; FScalar 3]] [[500; 600]%Z; [0; 0; 2]%Z].
+Definition ex_font_ptr : cfont_ptr := mkCfont 0 1.
+Example ex_clone :
+  let s' := fst (M_clone ex_store ex_font_ptr) in
+  let f' := snd (M_clone ex_store ex_font_ptr) in
+  f' = mkCfont 2 3 /\
+  cfont_observe s' f' = cfont_observe ex_store ex_font_ptr /\
+  cfont_observe (st_assign s' 3 0 (FRef 1)) ex_font_ptr = cfont_observe ex_store ex_font_ptr /\
+  cfont_observe (st_write_elem s' 2 1 0 9%Z) ex_font_ptr = cfont_observe ex_store ex_font_ptr /\
+  nth_error (st_observe (st_write_elem s' 3 0 1 999%Z) 1) 0 = Some (OObj 0 [500; 999]%Z).
+Proof. repeat split; vm_compute; reflexivity. Qed.
